@@ -432,7 +432,7 @@ impl SvgElement {
 //@end
 
 //@item src/element.rs :: impl SvgElement :: fn expand_compound_pos
-//@ replace[R-asderef] <<<let (x_attr, y_attr) = match self.pop_attr("xy-loc").as_deref() {>>> => <<<let xyloc_ = self.pop_attr("xy-loc");\n            let (x_attr, y_attr) = match opt_as_str(&xyloc_) {>>>
+//@ replace[R-asderef] <<<let (x_attr, y_attr) = match xy_loc.as_deref() {>>> => <<<let (x_attr, y_attr) = match opt_as_str(&xy_loc) {>>>
 //@ ensures
 //@ - final(self).name == old(self).name
 //@ - lacks(final(self).attrs@, seq!["xy"@, "cxy"@, "xy1"@, "xy2"@, "dxy"@])     @@C11.shorthand.pos.removed
